@@ -12,7 +12,7 @@ import (
 func init() {
 	register(&propDef{
 		ID:          "C02",
-		Explanation: "Decides four structural necessary conditions of 'generated Go compiles and renders what the template denotes', for ALL emission paths of the generator (GEM: every function of package generator abstracted to a tree of emissions; loops unrolled 0/1/2; paths rendered with typed placeholders and parsed with go/parser): R1 every path is syntactically valid Go; R2 every string-literal emission is a well-formed interpreted-string body (constants checked with strconv.Unquote, holes must come through escapeQuotes or be html-escaped parser names); R3 expressions owned by a guarded construct (if / else-if / for / switch / case / conditional attribute) are only emitted or collected after the guard's own expression was emitted in the same function; R4 the two void-element tables agree, the void early-return precedes children and close tag, Go comments emit nothing; R5 the literal-coalescing layer closes a pending literal before any Go text; R6 every emission path type-checks (go/types, in process) against the current templ and templ/runtime packages with its holes left as undefined placeholders — a misspelled or removed runtime function, a wrong argument count, an assignment count mismatch or a wrongly typed value in an emitted template is reported; R7 a control-flow writer that receives the node following its own node passes it to every child list it writes (if / else-if / else, for, switch cases), so the last inline child of whichever branch is taken keeps its separation from inline content after the statement; R8 in the spread-attribute renderer every case whose value carries a boolean (bool, *bool, func() bool, KeyValue[…, bool]) writes the attribute only under a condition that has that boolean as a conjunct; R9 the node dispatcher renders a node's trailing whitespace exactly under `inline-or-text(current) && inline-or-text(next)` (same classifier on both); R10 element writers emit open tag, attributes, '>', children and close tag in this order on every path; R11 no emitted `if <expr> {` / `for <expr> {` has an empty body (what the condition guards is emitted inside it). R12 every function of the generator and parser that descends into one of Then / Else / ElseIfs of a conditional node descends into all of them (collectors and emitters of the same node agree on which children exist); R13 the runtime output buffer hands every byte to its bufio.Writer and never writes to the underlying writer without flushing first, and R14 pooled buffers are flushed before they are put back and reset on acquisition or release — both are necessary for the bytes of one render to reach its writer in program order and unmixed with another render's. NOT decided: that the emitted constants spell the template's markup (only their order and well-formedness), argument passing, that `go build` accepts arbitrary user expressions.",
+		Explanation: "Decides four structural necessary conditions of 'generated Go compiles and renders what the template denotes', for ALL emission paths of the generator (GEM: every function of package generator abstracted to a tree of emissions; loops unrolled 0/1/2; paths rendered with typed placeholders and parsed with go/parser): R1 every path is syntactically valid Go; R2 every string-literal emission is a well-formed interpreted-string body (constants checked with strconv.Unquote, holes must come through escapeQuotes or be html-escaped parser names); R3 expressions owned by a guarded construct (if / else-if / for / switch / case / conditional attribute) are only emitted or collected after the guard's own expression was emitted in the same function; R4 the two void-element tables agree, the void early-return precedes children and close tag, Go comments emit nothing; R5 the literal-coalescing layer closes a pending literal before any Go text; R6 every emission path type-checks (go/types, in process) against the current templ and templ/runtime packages with its holes left as undefined placeholders — a misspelled or removed runtime function, a wrong argument count, an assignment count mismatch or a wrongly typed value in an emitted template is reported; R7 a control-flow writer that receives the node following its own node passes it to every child list it writes (if / else-if / else, for, switch cases), so the last inline child of whichever branch is taken keeps its separation from inline content after the statement; R8 in the spread-attribute renderer every case whose value carries a boolean (bool, *bool, func() bool, KeyValue[…, bool]) writes the attribute only under a condition that has that boolean as a conjunct; R9 the node dispatcher renders a node's trailing whitespace exactly under `inline-or-text(current) && inline-or-text(next)` (same classifier on both); R10 element writers emit open tag, attributes, '>', children and close tag in this order on every path; R11 no emitted `if <expr> {` / `for <expr> {` has an empty body (what the condition guards is emitted inside it). R12 every function of the generator and parser that descends into one of Then / Else / ElseIfs of a conditional node descends into all of them (collectors and emitters of the same node agree on which children exist); R13 the runtime output buffer hands every byte to its bufio.Writer and never writes to the underlying writer without flushing first, and R14 pooled buffers are flushed before they are put back and reset on acquisition or release — both are necessary for the bytes of one render to reach its writer in program order and unmixed with another render's. R15 every element in the block-element table (after which whitespace is dropped) is block-level or hidden in the HTML user-agent style sheet, or a listed exception. R16 (= C15.R10) lazy generation skips a template only when its Go file is strictly newer. R17 (= C13.R1) every emitted template body reads and clears the children slot before rendering, so a child block reaches exactly the component it was passed to. NOT decided: that the emitted constants spell the template's markup (only their order and well-formedness), argument passing, that `go build` accepts arbitrary user expressions.",
 		Assumptions: []string{"go/parser accepts exactly syntactically valid Go", "placeholders stand for a user expression / identifier of the right syntactic category (searched, ≤5 categories per hole)"},
 		Trusted:     []string{"go/types", "go/parser", "x/tools go/packages", "strconv.Unquote"},
 		Run:         runC02,
@@ -20,7 +20,7 @@ func init() {
 }
 
 func runC02(c *Ctx) {
-	c.load("./generator", "./parser/v2", ".", "./runtime")
+	c.load("./generator", "./parser/v2", ".", "./runtime", "./cmd/templ/generatecmd")
 	gParse(c, "C02.R1")
 	gTypeCheck(c, "C02.R6")
 	gLit(c, "C02.R2")
@@ -35,6 +35,9 @@ func runC02(c *Ctx) {
 	branchCompleteness(c, "C02.R12")
 	bufferInOrder(c, "C02.R13")
 	poolDiscipline(c, "C02.R14")
+	blockTableMembers(c, "C02.R15")
+	lazySkipIsStrict(c, "C02.R16")
+	gChildrenSlot(c, "C02.R17")
 }
 
 // guarded child lists: owner type → fields that hold the guarded children
@@ -916,4 +919,83 @@ func branchCompleteness(c *Ctx, rule string) {
 	}
 	c.count("conditional_node_traversals", n)
 	c.floor(rule, 6)
+}
+
+// blockTableMembers: C02.R15 — the generator drops the whitespace after a node that is "block" (parser table
+// blockElements, shared with the formatter). That is harmless only for elements that browsers lay out as blocks (or do
+// not render at all); for an element that is laid out inline the dropped space was visible separation between
+// adjacent inline content. Each key of the table must therefore be in the reference list below (HTML Standard,
+// "Rendering": elements with display: block / list-item / table-* / none in the user-agent style sheet), or be a listed
+// exception with its reason.
+var htmlBlockOrHidden = map[string]bool{
+	// display: block (flow content sectioning, grouping)
+	"html": true, "body": true, "address": true, "blockquote": true, "center": true, "dialog": true, "div": true, "figure": true, "figcaption": true,
+	"footer": true, "form": true, "header": true, "hr": true, "legend": true, "listing": true, "main": true, "p": true, "plaintext": true, "pre": true,
+	"search": true, "xmp": true, "article": true, "aside": true, "h1": true, "h2": true, "h3": true, "h4": true, "h5": true, "h6": true, "hgroup": true,
+	"nav": true, "section": true, "dir": true, "dd": true, "dl": true, "dt": true, "menu": true, "ol": true, "ul": true, "li": true, "details": true,
+	"summary": true, "fieldset": true, "optgroup": true, "option": true,
+	// display: table-*
+	"table": true, "caption": true, "colgroup": true, "col": true, "thead": true, "tbody": true, "tfoot": true, "tr": true, "td": true, "th": true,
+	// display: none
+	"head": true, "link": true, "meta": true, "script": true, "style": true, "title": true, "template": true, "base": true, "datalist": true, "noscript": true,
+}
+
+var blockTableExceptions = map[string]string{
+	"br":           "a forced line break: spaces next to it are removed by CSS white-space processing, so none is visible",
+	"turbo-stream": "custom element of the Turbo library, which declares it display: block / never rendered",
+}
+
+func blockTableMembers(c *Ctx, rule string) {
+	pp := c.pkg("parser/v2")
+	info := pp.TypesInfo
+	// the table: a package-level map[string]struct{} consulted by a method that the generator's inline test uses
+	var table *ast.CompositeLit
+	tableName := ""
+	for _, f := range pp.Syntax {
+		for _, d := range f.Decls {
+			gd, ok := d.(*ast.GenDecl)
+			if !ok || gd.Tok != token.VAR {
+				continue
+			}
+			for _, sp := range gd.Specs {
+				vs := sp.(*ast.ValueSpec)
+				for i, nm := range vs.Names {
+					if i >= len(vs.Values) || !strings.Contains(strings.ToLower(nm.Name), "block") {
+						continue
+					}
+					if cl, ok := vs.Values[i].(*ast.CompositeLit); ok {
+						if _, isMap := info.TypeOf(cl).Underlying().(*types.Map); isMap {
+							table, tableName = cl, nm.Name
+						}
+					}
+				}
+			}
+		}
+	}
+	if table == nil {
+		c.viol(rule, "anchor-lost:block-element-table", "", "no package-level map named *block* found in parser/v2")
+		return
+	}
+	n := 0
+	for _, el := range table.Elts {
+		kv, ok := el.(*ast.KeyValueExpr)
+		if !ok {
+			continue
+		}
+		name, isC := constString(info, kv.Key)
+		if !isC {
+			continue
+		}
+		n++
+		why := ""
+		if !htmlBlockOrHidden[name] {
+			if _, ex := blockTableExceptions[name]; !ex {
+				why = "not block-level (nor hidden) in the HTML user-agent style sheet"
+			}
+		}
+		c.check(why == "", rule, pp.PkgPath+"."+tableName+"|"+name+"|laid-out-as-block", c.pos(kv.Pos()), "block-level, hidden, or a listed exception",
+			fmt.Sprintf("<%s> is in the table of block elements but is %s: browsers lay it out inline, so the whitespace the generator drops after it (`</%s> text` is rendered as `</%s>text`) was visible separation between adjacent inline content", name, why, name, name))
+	}
+	c.count("block_table_entries", n)
+	c.floor(rule, 30)
 }
